@@ -121,8 +121,13 @@ class AnyIOBackend(AsyncNetworkBackend):
                     local_host=local_address,
                 )
                 # By default TCP sockets opened in `asyncio` include TCP_NODELAY.
-                for option in socket_options:
-                    stream._raw_socket.setsockopt(*option)  # type: ignore[attr-defined] # pragma: no cover
+                try:
+                    for option in socket_options:
+                        stream._raw_socket.setsockopt(*option)  # type: ignore[attr-defined] # pragma: no cover
+                except BaseException:  # pragma: no cover
+                    # The connection has been made: don't leave it behind.
+                    await anyio.aclose_forcefully(stream)
+                    raise
         return AnyIOStream(stream)
 
     async def connect_unix_socket(
@@ -141,8 +146,13 @@ class AnyIOBackend(AsyncNetworkBackend):
         with map_exceptions(exc_map):
             with anyio.fail_after(timeout):
                 stream: anyio.abc.ByteStream = await anyio.connect_unix(path)
-                for option in socket_options:
-                    stream._raw_socket.setsockopt(*option)  # type: ignore[attr-defined] # pragma: no cover
+                try:
+                    for option in socket_options:
+                        stream._raw_socket.setsockopt(*option)  # type: ignore[attr-defined] # pragma: no cover
+                except BaseException:  # pragma: no cover
+                    # The connection has been made: don't leave it behind.
+                    await anyio.aclose_forcefully(stream)
+                    raise
         return AnyIOStream(stream)
 
     async def sleep(self, seconds: float) -> None:
